@@ -145,4 +145,43 @@ theorem simulations_append' (a b : Bytes) (h : endBoundary a = true) :
   simp only [simulations, readLines_append' a b h1]
   exact sims_append' _ _ h2
 
+/-! ### include files -/
+
+theorem readLinesFS_append (fs : Bytes → Option Bytes) (d : Nat) (a b : Bytes) (h : closed a = true) :
+    readLinesFS fs d (a ++ b) = readLinesFS fs d a ++ readLinesFS fs d b := by
+  cases d <;> simp [readLinesFS, readLines_append' a b h]
+
+theorem linesFS_append (fs : Bytes → Option Bytes) (d : Nat) (a b : Bytes) (h : closed a = true) :
+    linesFS fs d (a ++ b) = linesFS fs d a ++ linesFS fs d b := by
+  simp [linesFS, readLinesFS_append fs d a b h]
+
+theorem endBoundaryFS_iff (fs : Bytes → Option Bytes) (d : Nat) (a : Bytes) :
+    endBoundaryFS fs d a = true ↔ closed a = true ∧ openAfter [] (linesFS fs d a) = [] := by
+  simp [endBoundaryFS, List.isEmpty_iff]
+
+theorem simulationsFS_append' (fs : Bytes → Option Bytes) (d : Nat) (a b : Bytes) (h : endBoundaryFS fs d a = true) :
+    simulationsFS fs d (a ++ b) = simulationsFS fs d a ++ simulationsFS fs d b := by
+  have ⟨h1, h2⟩ := (endBoundaryFS_iff fs d a).1 h
+  simp only [simulationsFS, linesFS_append fs d a b h1]
+  exact sims_append' _ _ h2
+
+/-- without include directives the file system is never consulted -/
+theorem readLinesFS_noInclude (fs : Bytes → Option Bytes) (d : Nat) (s : Bytes) (h : ∀ l ∈ readLines s, l.incl = none) :
+    readLinesFS fs d s = (readLines s).map Item.line := by
+  cases d with
+  | zero =>
+    simp only [readLinesFS]
+    apply List.map_congr_left
+    intro l hl; simp [h l hl]
+  | succ d =>
+    simp only [readLinesFS]
+    generalize readLines s = ls at h
+    induction ls with
+    | nil => rfl
+    | cons l r ih =>
+      have hl := h l (by simp)
+      have hr : ∀ x ∈ r, x.incl = none := fun x hx => h x (by simp [hx])
+      simp only [List.flatMap_cons, List.map_cons, hl]
+      simpa using ih hr
+
 end PhreeqcVerif.LineReader
